@@ -81,7 +81,11 @@ def run(ctx):
         if s["sub"] not in SEARCH and per.get((s["sub"], s["args"] == "hostile"), 0) < (25 if q else 300):
             per[(s["sub"], s["args"] == "hostile")] = per.get((s["sub"], s["args"] == "hostile"), 0) + 1
             extra.append(s)
-    scen = keep + extra + scen[:(600 if q else 25000)]
+    # outputs of several kilobytes (every match of a broad query, verbose detail lines): buffering and flushing slips show there
+    big = [s for s in scen if s["sub"] in SEARCH and s["limit"] == "100" and s["query"] == "hit" and s["db"] == "valid" and s["plat"] in ("all", "none")
+           and s["args"] != "unknownflag"]
+    big = [s for s in big if s["verbose"]][:(18 if q else 200)] + [s for s in big if not s["verbose"]][:(6 if q else 60)]
+    scen = keep + big + extra + scen[:(600 if q else 25000)]
     sf = os.path.join(ctx.work, "cli-run.jsonl")
     with open(sf, "w") as f:
         for s in scen:
